@@ -14,6 +14,18 @@
 
 #include "EbDecBitstream.h"
 
+/* Load the next 32-bit word of the stream without touching memory at or after `end`
+ * (bytes that do not exist read as zero). */
+static INLINE uint32_t dec_bits_load_word(const uint32_t *buf, const uint8_t *end) {
+    const uint8_t *p    = (const uint8_t *)buf;
+    uint32_t       word = 0;
+    if (p < end && (size_t)(end - p) >= sizeof(word))
+        memcpy(&word, p, sizeof(word));
+    else
+        for (int i = 0; i < 4 && p + i < end; i++) word |= (uint32_t)p[i] << (8 * i);
+    return word;
+}
+
 /* Function used for Bitstream structure initialization
 Assumes data is aligned to 4 bytes. If not aligned  then all Bitstream
 accesses will be unaligned and hence  costlier. Since this is codec memory that
@@ -24,16 +36,16 @@ void dec_bits_init(Bitstrm *bs, const uint8_t *data, size_t numbytes) {
     uint32_t  temp;
     uint32_t *buf;
     buf          = (uint32_t *)data;
-    temp         = *buf++;
+    temp         = dec_bits_load_word(buf++, data + numbytes);
     cur_word     = TO_BIG_ENDIAN(temp);
-    temp         = *buf++;
+    temp         = dec_bits_load_word(buf++, data + numbytes);
     nxt_word     = TO_BIG_ENDIAN(temp);
     bs->bit_ofst = 0;
     bs->buf_base = (uint8_t *)data;
     bs->buf      = buf;
     bs->cur_word = cur_word;
     bs->nxt_word = nxt_word;
-    bs->buf_max  = (uint8_t *)data + numbytes + 8;
+    bs->buf_max  = (uint8_t *)data + numbytes;
     return;
 }
 
@@ -43,7 +55,7 @@ uint32_t dec_get_bits(Bitstrm *bs, uint32_t numbits) {
     uint32_t bits_read;
     if (0 == numbits)
         return 0;
-    GET_BITS(bits_read, bs->buf, bs->bit_ofst, bs->cur_word, bs->nxt_word, numbits);
+    GET_BITS(bits_read, bs->buf, bs->bit_ofst, bs->cur_word, bs->nxt_word, numbits, bs->buf_max);
     return bits_read;
 }
 
